@@ -35,6 +35,15 @@ pub struct Conv {
     pub rcv_second: bool,
     pub tokio_seed: u64,
     pub mfs: u32,
+    /// links are torn down with detach() (non-closing) instead of close()
+    #[serde(default)]
+    pub detach: bool,
+    /// the listener's message spans several frames (the client's recv is pending inside a delivery)
+    #[serde(default)]
+    pub listener_big: bool,
+    /// the client's receiver accepts automatically (recv sends the disposition itself)
+    #[serde(default)]
+    pub auto_accept: bool,
 }
 
 #[derive(Clone, Debug, Serialize, Deserialize, Hash)]
@@ -97,7 +106,7 @@ async fn client_side(cfg: DuoCfg, io: simnet::Endpoint, ctl: simnet::PipeCtl, co
         if let Some(Ok(x)) = op!(out, ctl, "client.attach_sender", true, Sender::builder().name("c2l").target("q").receiver_settle_mode(rsm).attach(s)) {
             sender = Some(x);
         }
-        if let Some(Ok(x)) = op!(out, ctl, "client.attach_receiver", true, Receiver::builder().name("l2c").source("q").attach(s)) {
+        if let Some(Ok(x)) = op!(out, ctl, "client.attach_receiver", true, Receiver::builder().name("l2c").source("q").auto_accept(conv.auto_accept).attach(s)) {
             receiver = Some(x);
         }
     }
@@ -127,7 +136,9 @@ async fn client_side(cfg: DuoCfg, io: simnet::Endpoint, ctl: simnet::PipeCtl, co
             let mut out = Outcome::default();
             if let Some(rcv) = rcv_ref {
                 if let Some(Ok(d)) = op!(out, ctl_b, "client.recv", true, rcv.recv::<Body<Value>>()) {
-                    let _ = op!(out, ctl_b, "client.accept", true, rcv.accept(&d));
+                    if !conv.auto_accept {
+                        let _ = op!(out, ctl_b, "client.accept", true, rcv.accept(&d));
+                    }
                 }
             }
             out
@@ -156,10 +167,18 @@ async fn client_side(cfg: DuoCfg, io: simnet::Endpoint, ctl: simnet::PipeCtl, co
         let _ = op!(out, ctl, "client.post.begin", true, Session::begin(&mut conn));
     }
     if let Some(snd) = sender.take() {
-        let _ = op!(out, ctl, "client.sender.close", false, snd.close());
+        if conv.detach {
+            let _ = op!(out, ctl, "client.sender.detach", false, async { snd.detach().await.map(|_| ()).map_err(|(_, e)| e) });
+        } else {
+            let _ = op!(out, ctl, "client.sender.close", false, snd.close());
+        }
     }
     if let Some(rcv) = receiver.take() {
-        let _ = op!(out, ctl, "client.receiver.close", false, rcv.close());
+        if conv.detach {
+            let _ = op!(out, ctl, "client.receiver.detach", false, async { rcv.detach().await.map(|_| ()).map_err(|(_, e)| e) });
+        } else {
+            let _ = op!(out, ctl, "client.receiver.close", false, rcv.close());
+        }
     }
     if let Some(mut s) = sess_opt.take() {
         let _ = op!(out, ctl, "client.end", false, s.end());
@@ -218,10 +237,11 @@ async fn listener_side(cfg: DuoCfg, io: simnet::Endpoint, ctl: simnet::PipeCtl, 
         let snd_ref = sender.as_mut();
         let rcv_ref = receiver.as_mut();
         let n_msgs = conv.msgs;
+        let conv = conv.clone();
         let a = async move {
             let mut out = Outcome::default();
             if let Some(snd) = snd_ref {
-                let _ = op!(out, ctl_a, "listener.send", true, snd.send(body(20)));
+                let _ = op!(out, ctl_a, "listener.send", true, snd.send(body(if conv.listener_big { 1700 } else { 20 })));
             }
             out
         };
@@ -270,7 +290,11 @@ async fn listener_side(cfg: DuoCfg, io: simnet::Endpoint, ctl: simnet::PipeCtl, 
                 if !fired {
                     let _ = op!(out, ctl_a, "listener.sender.on_detach", false, async { Ok::<_, ()>(snd.on_detach().await) });
                 }
-                let _ = op!(out, ctl_a, "listener.sender.close", false, snd.close());
+                if conv.detach {
+                    let _ = op!(out, ctl_a, "listener.sender.detach", false, async { snd.detach().await.map(|_| ()).map_err(|(_, e)| e) });
+                } else {
+                    let _ = op!(out, ctl_a, "listener.sender.close", false, snd.close());
+                }
             }
             out
         };
@@ -281,7 +305,11 @@ async fn listener_side(cfg: DuoCfg, io: simnet::Endpoint, ctl: simnet::PipeCtl, 
                     // wait for the client's detach (recv fails with RemoteClosed and answers it)
                     let _ = op!(out, ctl_b, "listener.receiver.recv_until_detach", false, rcv.recv::<Body<Value>>());
                 }
-                let _ = op!(out, ctl_b, "listener.receiver.close", false, rcv.close());
+                if conv.detach {
+                    let _ = op!(out, ctl_b, "listener.receiver.detach", false, async { rcv.detach().await.map(|_| ()).map_err(|(_, e)| e) });
+                } else {
+                    let _ = op!(out, ctl_b, "listener.receiver.close", false, rcv.close());
+                }
             }
             out
         };
@@ -613,6 +641,7 @@ fn exec_cut(ctx: &ShardCtx, c: &Case, rep: &mut Report, seen: &mut std::collecti
                 rep.class("fault-fired");
             }
             if info.fired && info.pending_at_fault {
+                rep.nontrivial_evals += 1;
                 rep.nontrivial.insert(hash_of(c));
             }
             if rep.samples.len() < 4 && info.fired {
@@ -638,8 +667,8 @@ fn exec_cut(ctx: &ShardCtx, c: &Case, rep: &mut Report, seen: &mut std::collecti
 fn run(ctx: &ShardCtx, rep: &mut Report) {
     // (a) cuts: enumerate offsets of reference conversations
     let convs: Vec<Conv> = match ctx.tier {
-        Tier::Quick => (0..8u64).map(|i| Conv { msgs: 1 + (i % 3) as u8, big: i % 2 == 1, rcv_second: i % 4 >= 2, tokio_seed: ctx.seed.wrapping_add(i), mfs: if i % 5 == 4 { 4096 } else { 512 } }).collect(),
-        Tier::Thorough => (0..300u64).map(|i| Conv { msgs: 1 + (i % 3) as u8, big: i % 2 == 1, rcv_second: i % 4 >= 2, tokio_seed: ctx.seed.wrapping_add(i), mfs: if i % 5 == 0 { 4096 } else { 512 } }).collect(),
+        Tier::Quick => (0..96u64).map(|i| Conv { msgs: 1 + (i % 3) as u8, big: i % 2 == 1, rcv_second: i % 4 >= 2, tokio_seed: ctx.seed.wrapping_add(i), mfs: if i % 5 == 4 { 4096 } else { 512 }, detach: (i / 8) % 3 == 1, listener_big: (i / 8) % 2 == 1, auto_accept: (i / 16) % 2 == 1 }).collect(),
+        Tier::Thorough => (0..300u64).map(|i| Conv { msgs: 1 + (i % 3) as u8, big: i % 2 == 1, rcv_second: i % 4 >= 2, tokio_seed: ctx.seed.wrapping_add(i), mfs: if i % 5 == 0 { 4096 } else { 512 }, detach: (i / 8) % 3 == 1, listener_big: (i / 8) % 2 == 1, auto_accept: (i / 16) % 2 == 1 }).collect(),
     };
     let mut seen = std::collections::HashSet::new();
     let mut n: u64 = 0;
@@ -687,7 +716,7 @@ fn run(ctx: &ShardCtx, rep: &mut Report) {
     for what in 0..4u8 {
         for with_error in [false, true] {
             for after in 0..10u8 {
-                for s in 0..(if ctx.tier == Tier::Quick { 8u64 } else { 64 }) {
+                for s in 0..(if ctx.tier == Tier::Quick { 64u64 } else { 512 }) {
                     let shutdown_fails = s % 2 == 1;
                     let received_first = s % 4 >= 2;
                     k += 1;
@@ -701,6 +730,7 @@ fn run(ctx: &ShardCtx, rep: &mut Report) {
                         Ok(Ok((injected, log))) => {
                             rep.class(["peer-close", "peer-end", "peer-detach-closing", "peer-detach-non-closing"][what as usize]);
                             if injected {
+                                rep.nontrivial_evals += 1;
                                 rep.nontrivial.insert(hash_of(&c));
                             }
                             if rep.samples.len() < 6 {
